@@ -101,7 +101,9 @@ class SyncExecutor:
                 return future.result(timeout=wait)
             except concurrent.futures.TimeoutError:
                 if future.done():
-                    raise
+                    # completed as the slice expired (or ended with a TimeoutError of its own): hand out
+                    # the future's own outcome, not the expiry of the slice
+                    return future.result()
                 if deadline is not None and time.monotonic() >= deadline:
                     raise
                 if not self._thread.is_alive() and not future.done():
